@@ -274,6 +274,29 @@ Example est_run_example w1 w2 d1 d2 :
   est_cost_st (est_run (est_new [w1] [d1]) [(w2, d2)]) = est_cost [w1; w2] [d1; d2].
 Proof. reflexivity. Qed.
 
+(** ** [VaporPressure::predict] ([src/estimator/vapor_pressure.rs]): the decision structure of the wrapper.
+    [vle T] is [PhaseEquilibrium::vapor_pressure(eos, T)[0]] ([None] = no VLE found), [a], [b] the coefficients of the
+    fallback ln p = a + b/T (computed from the critical point found with the start value [max_temperature], i.e. the
+    [critical_temperature] option or the largest data temperature); [None] models NaN.  The start value enters the
+    prediction ONLY through (a, b), and (a, b) only where the model has no VLE. *)
+Definition vp_predict (vle : R -> option R) (extrapolate : bool) (a b T : R) : option R :=
+  match vle T with
+  | Some p => Some p
+  | None => if extrapolate then Some (exp (a + b / T)) else None
+  end.
+
+Theorem vp_predict_wraps_vle vle extrapolate a b T p :
+  vle T = Some p -> vp_predict vle extrapolate a b T = Some p.
+Proof. intros H. unfold vp_predict. now rewrite H. Qed.
+
+Theorem vp_predict_options_irrelevant vle e1 e2 a1 b1 a2 b2 T p :
+  vle T = Some p -> vp_predict vle e1 a1 b1 T = vp_predict vle e2 a2 b2 T.
+Proof. intros H. now rewrite !(vp_predict_wraps_vle vle _ _ _ T p H). Qed.
+
+Theorem vp_predict_no_vle vle a b T :
+  vle T = None -> vp_predict vle false a b T = None /\ vp_predict vle true a b T = Some (exp (a + b / T)).
+Proof. intros H. unfold vp_predict. now rewrite H. Qed.
+
 (** non-vacuity *)
 Example est_cost_example :
   est_cost [1; 3] [mkds Linear 1 [2] [1]; mkds Linear 1 [3; 3] [2; 4]] = [1 / 1 * (1 / (1 + (3 + 0))); (3 - 2) / 2 / (1 + 1) * (3 / (1 + (3 + 0))); (3 - 4) / 4 / (1 + 1) * (3 / (1 + (3 + 0)))].
